@@ -601,8 +601,19 @@ struct Tally {
     second_update_removed_user_file_at_path_skipped_before: Counter,
     outside_comparisons: Counter,
     update_errors: Counter,
+    update_panics_unclaimed: Counter,
     snapshot_problems: Counter,
     unplaceable: Counter,
+    /// message -> (count, first update it was seen with)
+    notes: Mutex<BTreeMap<String, (u64, String)>>,
+}
+
+impl Tally {
+    fn note(&self, what: String, update: String) {
+        let mut n = self.notes.lock().unwrap();
+        let e = n.entry(what).or_insert((0, update));
+        e.0 += 1;
+    }
 }
 
 fn strict_prefixes(p: &str) -> Vec<String> {
@@ -652,8 +663,8 @@ fn check_update(c: &UpdateCtx, tally: &Tally) -> Vec<Failure> {
             }
             if !intact {
                 fail(
-                    format!("C25/{step}/untracked-{}/{how}", d.kind()),
-                    format!("{q} is not tracked and was {how}: before {}, after {}", d.show(), after.map_or("nothing".into(), |a| a.show())),
+                    format!("C25/untracked-{}/{how}", d.kind()),
+                    format!("{step}: {q} is not tracked and was {how}: before {}, after {}", d.show(), after.map_or("nothing".into(), |a| a.show())),
                 );
             }
         } else {
@@ -662,9 +673,9 @@ fn check_update(c: &UpdateCtx, tally: &Tally) -> Vec<Failure> {
                 tally.modified_tracked_untouched_checked.inc();
                 if !intact {
                     fail(
-                        format!("C25/{step}/modified-tracked-{}-at-unchanged-path/{how}", d.kind()),
+                        format!("C25/modified-tracked-{}-at-unchanged-path/{how}", d.kind()),
                         format!(
-                            "{q} was changed by the user, the update does not change its tree value, but it was {how}: before {}, \
+                            "{step}: {q} was changed by the user, the update does not change its tree value, but it was {how}: before {}, \
                              after {}",
                             d.show(),
                             after.map_or("nothing".into(), |a| a.show())
@@ -704,7 +715,7 @@ fn check_update(c: &UpdateCtx, tally: &Tally) -> Vec<Failure> {
         if c.post.outside.dirs != c.pre.outside.dirs {
             what.push(format!("directories {:?} -> {:?}", c.pre.outside.dirs, c.post.outside.dirs));
         }
-        fail(format!("C25/{step}/outside-workspace/{class}"), format!("the directory outside the workspace changed: {}", what.join("; ")));
+        fail(format!("C25/outside-workspace/{class}"), format!("the directory outside the workspace changed during the {step}: {}", what.join("; ")));
     }
 
     // 3: blocked wanted paths are skipped (and the update does not fail)
@@ -728,25 +739,47 @@ fn check_update(c: &UpdateCtx, tally: &Tally) -> Vec<Failure> {
                 tally.updates_with_blocked_wanted_path.inc();
                 if stats.skipped_files < blocked_wanted {
                     fail(
-                        format!("C25/{step}/blocked-path/not-reported-as-skipped"),
+                        "C25/blocked-path/not-reported-as-skipped".into(),
                         format!("{blocked_wanted} wanted path(s) are blocked by user files but skipped_files = {}", stats.skipped_files),
                     );
                 }
             }
         }
+        // An update that fails or panics is this property's business only when a wanted path
+        // was blocked by a user file (then it had to be skipped); otherwise it is counted and
+        // reported as a note (the files-intact clauses above were evaluated all the same).
         UpdateResult::Err(e) => {
-            tally.update_errors.inc();
             if blocked_wanted > 0 {
+                tally.updates_with_blocked_wanted_path.inc();
                 fail(
-                    format!("C25/{step}/blocked-path/error-instead-of-skip"),
+                    "C25/blocked-path/error-instead-of-skip".into(),
                     format!("{blocked_wanted} wanted path(s) are blocked by user files and the update failed: {e}"),
                 );
             } else {
-                fail(format!("C25/{step}/error"), format!("the update failed: {e}"));
+                tally.update_errors.inc();
+                tally.note(format!("error (no wanted path blocked): {e}"), c.update.show());
             }
         }
         UpdateResult::Panic(p) => {
-            fail(format!("C25/{step}/panic"), format!("the update panicked: {p}"));
+            let class = if p.contains("changed_file_states must be sorted") {
+                "file-states-unsorted"
+            } else if matches!(c.update, Update::SetSparse(_)) && p.contains("assertion `left == right` failed") {
+                "set-sparse-stats-assertion"
+            } else {
+                "other"
+            };
+            if blocked_wanted > 0 {
+                tally.updates_with_blocked_wanted_path.inc();
+                fail(
+                    format!("C25/blocked-path/panic-instead-of-skip/{class}"),
+                    format!(
+                        "{blocked_wanted} wanted path(s) are blocked by user files and the {step} panicked instead of skipping them: {p}"
+                    ),
+                );
+            } else {
+                tally.update_panics_unclaimed.inc();
+                tally.note(format!("panic (no wanted path blocked), class {class}: {}", p.replace('\n', " ")), c.update.show());
+            }
         }
     }
 
@@ -1153,10 +1186,15 @@ fn main() {
         "outside_directory_comparisons": t.outside_comparisons.get(),
         "second_updates_that_removed_the_user_file_at_a_path_the_first_update_skipped_(allowed,_see_notes)":
             t.second_update_removed_user_file_at_path_skipped_before.get(),
-        "update_errors": t.update_errors.get(),
+        "updates_that_failed_without_a_blocked_wanted_path_(not_claimed)": t.update_errors.get(),
+        "updates_that_panicked_without_a_blocked_wanted_path_(not_claimed)": t.update_panics_unclaimed.get(),
+        "notes": t.notes.lock().unwrap().iter().map(|(k, v)| json!({"what": k, "count": v.0, "first_seen_with": v.1})).collect::<Vec<_>>(),
         "cases_dropped_because_the_obstacle_cannot_be_placed": t.unplaceable.get(),
         "cases_dropped_because_the_intermediate_snapshot_failed": t.snapshot_problems.get(),
     });
+    for (what, (n, upd)) in t.notes.lock().unwrap().iter() {
+        println!("[C25] NOTE (not a verdict) x{n}, first with {upd}: {what}");
+    }
     println!(
         "[C25] cases enumerated={} evaluated={} updates={} distinct states={} in-the-way={} vacuity={}",
         cases.len(),
